@@ -14,7 +14,7 @@ ID = "C09"
 RULE = ("Mode H: a world of live objects in ONE process - model A=All(B,Q) with B=Any(a,b) one shared object also under Q=AtMost(1,[c,B]) and "
         "under a second model N=Any(B,d); the same shape with generated ids; configurator pairs that are == and hash-equal but differently "
         "defined (rule R AtMost 1 vs AtMost 2: hash(-1)==hash(-2); leaf bounds (0,3) vs (1,2)); a configurator with defaulted rules - and a "
-        "menu of ~190 public API calls (evaluate / evaluate_propositions / assume with total, partial, sub-proposition-naming and "
+        "menu of ~205 public API calls (incl. the built-in solver, whose answers are only compared with the pristine process) (evaluate / evaluate_propositions / assume with total, partial, sub-proposition-naming and "
         "own-id-naming interpretations, reduce, negate, errors, to_json, to_b64, to_text, flatten, variables, flags, to_ge_polyhedron, solve, "
         "ge_polyhedron, default_prios, leafs, select, add, ...). EVERY call sequence of length <=2 (thorough: <=3 via state de-duplication) is "
         "replayed from scratch in a child forked from a pristine parent. invariants: (1) every call in every reachable state returns what "
@@ -126,6 +126,9 @@ def ops_menu():
         add(f"{X}.to_ge_polyhedron[F]", lambda w, X=X: w[X].to_ge_polyhedron(active=False))
         add(f"{X}.solve", lambda w, X=X: list(w[X].solve([{"a": 1}, {"c": 1, "a": -1}], solver=cfgspace.Capture("exact"))))
         add(f"{X}.to_short", lambda w, X=X: w[X].to_short())
+        add(f"{X}.solve[builtin]", lambda w, X=X: list(w[X].solve([{"a": 1}, {"c": 1, "a": -1}])))
+        add(f"{X}.solve[builtin,reduce]", lambda w, X=X: list(w[X].solve([{"a": 1}], try_reduce_before=True)))
+        add(f"{X}.to_ge_polyhedron[T,reduced]", lambda w, X=X: w[X].to_ge_polyhedron(active=True, reduced=True))
     add("from_json(M.to_json)", lambda w: pg.from_json(json.loads(json.dumps(w["M"].to_json()))))
     add("from_json(G.to_json)", lambda w: pg.from_json(json.loads(json.dumps(w["G"].to_json()))))
     add("from_b64(N.to_b64)", lambda w: pg.from_b64(w["N"].to_b64()))
@@ -156,6 +159,7 @@ def ops_menu():
         add(f"{K}.to_ge_polyhedron[T]", lambda w, K=K: w[K].to_ge_polyhedron(active=True))
         add(f"{K}.flatten", lambda w, K=K: w[K].flatten())
         add(f"{K}.negate", lambda w, K=K: w[K].negate())
+        add(f"{K}.select[builtin]", lambda w, K=K: list(w[K].select({"a": 1}, {"y": 1})))
     return ops
 
 
